@@ -254,6 +254,9 @@ func (a *c16Anchor) WriteAnchor(anchor string, _ []*protocol.AnchorDocument, ref
 	a.mu.Lock()
 	defer a.mu.Unlock()
 	a.n++
+	if a.node != nil && a.node.casFailedInBatch {
+		a.node.anchoredAfterCASFailure = append(a.node.anchoredAfterCASFailure, anchor)
+	}
 	if (a.choose != nil && a.choose()) || (a.failAt != 0 && a.n == a.failAt) {
 		return fmt.Errorf("injected anchor write failure")
 	}
@@ -292,6 +295,7 @@ func (h *c16Handler) PrepareTxnFiles(ops []*operation.QueuedOperation) (*protoco
 	for _, op := range ops {
 		rec.ids = append(rec.ids, uidOf(op))
 	}
+	h.node.casFailedInBatch = false
 	info, err := h.inner.PrepareTxnFiles(ops)
 	if err == nil {
 		rec.ok = true
@@ -325,6 +329,9 @@ type c16Node struct {
 	failCAS int
 	seq     int
 	verOf   map[string]uint64
+	// a CAS write failed while the current batch was being prepared (reset at every handler invocation)
+	casFailedInBatch        bool
+	anchoredAfterCASFailure []string
 }
 
 var c16DIDs []*fx.DIDOps
@@ -358,7 +365,9 @@ func c16Request(sym string) []byte {
 	panic("no request " + sym)
 }
 
-const c16Max = 2
+// c16Max is the protocol's MaxOperationCount used by the node under test and the reference (2 by default; the
+// sequential search also runs with 3 so that a cut window can hold interleaved protocol versions).
+var c16Max = 2
 
 func newC16Node(useProxy bool) *c16Node {
 	c16Alphabet()
@@ -371,7 +380,7 @@ func newC16Node(useProxy bool) *c16Node {
 	mk := func(genesis uint64) *fx.Version {
 		p := fx.DefaultProtocol()
 		p.GenesisTime = genesis
-		p.MaxOperationCount = c16Max
+		p.MaxOperationCount = uint(c16Max)
 		v := fx.NewVersion(p, &fx.VersionOpts{CAS: n.cas, ParserOpts: []operationparser.Option{operationparser.WithAnchorTimeValidator(expiryValidator{})}})
 		v.Handler = &c16Handler{inner: v.Handler, version: genesis, node: n}
 		return v
@@ -536,9 +545,17 @@ func c16Replay(events []c16Event) (*qModel, string, string) {
 }
 
 func c16Sequential(r *hx.Run) {
+	c16SequentialMax(r, 2, 0)
+	// MaxOperationCount = 3: windows such as [v0, v10, v0]; quick explores it to depth 4 (3 adds + 1 tick)
+	c16Max = 3
+	c16SequentialMax(r, 3, 4)
+	c16Max = 2
+}
+
+func c16SequentialMax(r *hx.Run, max int, depthCap int) {
 	depth, maxAdds := 5, 3
 	syms := []string{"C1", "U1", "C2"}
-	casFaults := []int{1, 3}
+	casFaults := []int{1, 2, 3}
 	if r.Tier == "thorough" {
 		depth, maxAdds = 6, 4
 		syms = []string{"C1", "U1", "C2", "D3", "Ux2"}
@@ -564,7 +581,13 @@ func c16Sequential(r *hx.Run) {
 			ticks = append(ticks, c16Event{Kind: "tick", Force: force, FailAnchor: 2})
 		}
 	}
-	r.Extra["sequential_depth"] = depth
+	if depthCap > 0 && r.Tier == "quick" {
+		depth = depthCap
+	}
+	if max == 3 && r.Tier == "thorough" {
+		depth = 5
+	}
+	r.Extra[fmt.Sprintf("sequential_depth_max%d", max)] = depth
 	r.Extra["sequential_event_alphabet"] = len(adds) + len(ticks)
 	type node struct {
 		events []c16Event
@@ -595,7 +618,7 @@ func c16Sequential(r *hx.Run) {
 				for _, x := range h {
 					names = append(names, x.String())
 				}
-				caseID := "seq|" + strings.Join(names, ";")
+				caseID := fmt.Sprintf("seq|max%d|", max) + strings.Join(names, ";")
 				if !r.Want(caseID) {
 					continue
 				}
@@ -625,10 +648,10 @@ func c16Sequential(r *hx.Run) {
 		})
 		sort.Slice(next, func(i, j int) bool { return fmt.Sprint(next[i].events) < fmt.Sprint(next[j].events) })
 		frontier = next
-		r.Extra[fmt.Sprintf("sequential_new_states_depth_%d", d+1)] = len(next)
+		r.Extra[fmt.Sprintf("sequential_max%d_new_states_depth_%d", max, d+1)] = len(next)
 	}
 	r.States += int64(len(seen))
-	r.Extra["sequential_states"] = len(seen)
+	r.Extra[fmt.Sprintf("sequential_states_max%d", max)] = len(seen)
 	r.Sample(map[string]interface{}{"sequential_example": "add(C1,v0);add(U1,v0);tick(timeout,failCAS#2);tick(timeout)"})
 }
 
@@ -775,7 +798,13 @@ func c16NewRun(sc c16Scenario, onFinding func(f c16Finding), partitions map[stri
 		names = append(names, "W")
 		bodies = append(bodies, func() {
 			s := explore.Active()
-			n.cas.FailW = func(int, []byte) bool { return s.Choose(2, "cas-write-fails") == 1 }
+			n.cas.FailW = func(int, []byte) bool {
+				if s.Choose(2, "cas-write-fails") == 1 {
+					n.casFailedInBatch = true
+					return true
+				}
+				return false
+			}
 			n.anchor.choose = func() bool { return s.Choose(2, "anchor-write-fails") == 1 }
 			for t := 0; t < sc.Tick; t++ {
 				switch s.Choose(3, "tick") {
@@ -825,6 +854,9 @@ func c16NewRun(sc c16Scenario, onFinding func(f c16Finding), partitions map[stri
 						report("batch-version", "unknown operation id")
 					}
 				}
+			}
+			if len(n.anchoredAfterCASFailure) > 0 {
+				report("anchored-after-cas-write-failure", fmt.Sprintf("a batch was anchored (%s) although a CAS write failed while its files were being written", n.anchoredAfterCASFailure[0]))
 			}
 			// (3) fault-free drain outside the scheduler, then exactly-once
 			n.cas.FailW, n.anchor.choose = nil, nil
@@ -1098,7 +1130,7 @@ func c16Concurrent(r *hx.Run) {
 
 func c16(r *hx.Run) {
 	fx.Quiet()
-	r.Rule = "(a) breadth-first search over event sequences {Add(op, version) over 5 operations x 2 protocol versions; monitor tick; timeout tick; each tick with no fault, a chosen CAS write failing, or the anchor write failing} to depth 5 (thorough 6) with <=3 (4) adds (quick: 8 add events and 8 tick events; thorough: 10 and 16), de-duplicated on the reference state; every transition replays the sequence on a fresh real Writer + cutter + MemQueue + OperationHandler in lock-step with the list reference model (queue content, every handler invocation, every anchored batch); (b) stateless exploration of 4 concurrent scenarios (2-3 submitter goroutines + a writer goroutine taking explorer-chosen ticks and faults) under a cooperative scheduler with scheduling points at every mutex/atomic operation of memqueue.go / writer.go (import-rewritten overlay), all executions with <=2 (thorough 3) deviations (preemptions + faults): linearized queue calls replayed on a FIFO list, batch invariants, no deadlock, and after a fault-free drain every accepted operation anchored exactly once. Non-trivial: distinct reference states with an anchored batch; distinct batch partitions observed."
+	r.Rule = "(a) breadth-first search over event sequences {Add(op, version) over 5 operations x 2 protocol versions; monitor tick; timeout tick; each tick with no fault, a chosen CAS write failing, or the anchor write failing} to depth 5 (thorough 6) with <=3 (4) adds (quick: 8 add events and 10 tick events; thorough: 10 and 16), de-duplicated on the reference state; every transition replays the sequence on a fresh real Writer + cutter + MemQueue + OperationHandler in lock-step with the list reference model (queue content, every handler invocation, every anchored batch); (b) stateless exploration of 4 concurrent scenarios (2-3 submitter goroutines + a writer goroutine taking explorer-chosen ticks and faults) under a cooperative scheduler with scheduling points at every mutex/atomic operation of memqueue.go / writer.go (import-rewritten overlay), all executions with <=2 (thorough 3) deviations (preemptions + faults): linearized queue calls replayed on a FIFO list, batch invariants, no deadlock, and after a fault-free drain every accepted operation anchored exactly once. Non-trivial: distinct reference states with an anchored batch; distinct batch partitions observed."
 	t0 := time.Now()
 	if (r.Only == "" || strings.HasPrefix(r.Only, "seq|")) && os.Getenv("VERIF_C16_PART") != "conc" {
 		c16Sequential(r)
